@@ -208,9 +208,25 @@ let process_trace (id : string) (backend : string) (lines : (char * string) list
      sites 4 (after the look-up) and 7 (entry of the clean-up after a failed try): nothing another thread can
      see without the global lock has happened yet, the critical section takes effect at its second half *)
   let early site = (site = 1 || site = 3) in
+  (* [between]: agents parked at a Between site (after a failed try of the key mutex, outside any critical section):
+     the model made the step when the try ran; the agent's next segment only walks to the next site *)
+  let between = ref [] in
+  let between_new = ref [] in
   (try
     List.iter (fun (tag, rest) ->
       match tag with
+      | 'n' ->
+          (match split_on ' ' rest with
+           | a :: _ -> between_new := int_of_string a :: !between_new
+           | _ -> ())
+      | 'l' when (match label_aid (parse_label (split_on ' ' rest)) with
+                  | Some x -> List.mem (int_of_nat x) !between | None -> false) ->
+          incr idx; incr n_labels; incr nl; incr n_fine_cont;
+          h := Hashtbl.hash (!h, rest);
+          (match label_aid (parse_label (split_on ' ' rest)) with
+           | Some x -> between := List.filter (fun a -> a <> int_of_nat x) !between
+           | None -> ());
+          pending_model_obs := Some (`Obs ONothing)
       | 'm' ->
           (match split_on ' ' rest with
            | a :: site :: _ -> marker := Some (int_of_string a); marker_site := int_of_string site
@@ -288,6 +304,7 @@ let process_trace (id : string) (backend : string) (lines : (char * string) list
                if m <> impl then begin
                  result := VMismatch (!idx, "obs", Printf.sprintf "impl=[%s] model=[%s]" impl m); raise Exit end);
           pending_model_obs := None
+      | 'b' -> between := !between_new @ !between; between_new := []
       | 's' when !marker <> None -> marker := None   (* no snapshot can be taken while the global lock is held *)
       | 's' ->
           incr n_snap;
@@ -325,7 +342,7 @@ let process_trace_full id backend (lines : (char * string) list) : verdict =
     let idx = ref 0 in
     let res = ref VOk in
     let last_b = ref None in
-    if List.exists (fun (tag, _) -> tag = 'm') lines then VOk else begin
+    if List.exists (fun (tag, _) -> tag = 'm' || tag = 'n') lines then VOk else begin
     (try
       List.iter (fun (tag, rest) ->
         match tag with
